@@ -593,6 +593,9 @@ fn fuse_candidates(prog: &Prog) -> Vec<(&'static str, Fuse)> {
     if ops.iter().any(|o| matches!(o, Op::BarrierWait(_))) {
         v.push(("Barrier::wait(blocking)", Fuse { barrier_blocking_arrival: true, ..Default::default() }));
     }
+    if ops.iter().any(|o| matches!(o, Op::Park)) && ops.iter().any(|o| matches!(o, Op::Unpark(_))) {
+        v.push(("park/unpark(hand-off)", Fuse { park_handoff: true, ..Default::default() }));
+    }
     if ops.iter().any(|o| matches!(o, Op::CallOnce { atom: Some(_), .. })) {
         v.push(("Once::completion", Fuse { once_completion: true, ..Default::default() }));
     }
@@ -608,6 +611,7 @@ fn merge_fuse(a: Fuse, b: Fuse) -> Fuse {
         is_closed: a.is_closed || b.is_closed,
         once_completion: a.once_completion || b.once_completion,
         barrier_blocking_arrival: a.barrier_blocking_arrival || b.barrier_blocking_arrival,
+        park_handoff: a.park_handoff || b.park_handoff,
     }
 }
 
